@@ -3,6 +3,7 @@ package main
 import (
 	"fmt"
 	"go/types"
+	"regexp"
 	"strings"
 )
 
@@ -77,13 +78,20 @@ func opaqueScalar(t types.Type) (string, bool) {
 	return "", false
 }
 
+var byteRe = regexp.MustCompile(`\bbyte\b`)
+var runeRe = regexp.MustCompile(`\brune\b`)
+
 func typeKey(t types.Type) string {
-	return sanitize(types.TypeString(types.Unalias(t), func(p *types.Package) string {
+	s := types.TypeString(types.Unalias(t), func(p *types.Package) string {
 		if p.Path() == "github.com/hashicorp/memberlist" {
 			return ""
 		}
 		return p.Name()
-	}))
+	})
+	// byte and rune are aliases: one region per underlying element type
+	s = byteRe.ReplaceAllString(s, "uint8")
+	s = runeRe.ReplaceAllString(s, "int32")
+	return sanitize(s)
 }
 
 func (e *Eng) sortOf(t types.Type) string {
